@@ -54,3 +54,19 @@ Theorem C11_example : fresh_inits 0 (init_q [(2, 3)]) ex_history /\ h_units (q_h
   /\ held (q_net (run_q 0 (init_q [(2, 3)]) ex_history)) 0 = held (q_net (init_q [(2, 3)])) 0.
 Proof. exact (conj ex_history_fresh (conj ex_history_idle (conj (proj2 ex_history_results) ex_history_restored))). Qed.
 Print Assumptions C11_example.
+
+(* the register / simulated-qubit half (closed world of one host): the network the host drives is a reachable state of the
+   virtual-node model, and once every application has been stopped NO node holds a qubit, simulates a qubit or keeps a register *)
+From SQ Require Import Net.Bookkeeping Qasm.TeardownFull.
+Theorem C11_host_network_is_reachable : forall caps i qs, reachable (q_net (run_q i (init_q caps) qs)).
+Proof. exact run_q_reachable. Qed.
+Print Assumptions C11_host_network_is_reachable.
+
+Theorem C11_stop_leaves_nothing : forall caps i qs, fresh_inits i (init_q caps) qs ->
+  h_units (q_host (run_q i (init_q caps) qs)) = [] ->
+  forall j, virt (nth_node (q_net (run_q i (init_q caps) qs)) j) = [] /\
+            sims (nth_node (q_net (run_q i (init_q caps) qs)) j) = [] /\
+            regs (nth_node (q_net (run_q i (init_q caps) qs)) j) = [] /\
+            numRegs (nth_node (q_net (run_q i (init_q caps) qs)) j) = 0.
+Proof. exact stop_leaves_nothing. Qed.
+Print Assumptions C11_stop_leaves_nothing.
